@@ -81,7 +81,7 @@ def synthetic(case, note):
         if got != want:
             raise Violation('C14.grammar', 'table read as %r, header file declares %r' % (got[:4], want[:4]),
                             sig='C14.grammar')
-        lines = guard('C14.decode', ilog().parse_ilog_data, memoryview(case['data']), path)
+        lines = guard('C14.decode', ilog().parse_ilog_data, D.view(case['data']), path)
     compare(lines, entries, case['data'])
     classify(entries, case['data'], note)
 
@@ -124,7 +124,7 @@ def shipped_case(draw):
 @PROP.given('shipped-tables', lambda tier: shipped_case(), quick=400, thorough=20000, shards_quick=8)
 def shipped(case, note):
     entries = shipped_table(case['file'])
-    lines = guard('C14.decode', ilog().parse_ilog_data, memoryview(case['data']), D.shipped(case['file']))
+    lines = guard('C14.decode', ilog().parse_ilog_data, D.view(case['data']), D.shipped(case['file']))
     compare(lines, entries, case['data'])
     classify(entries, case['data'], note)
 
@@ -152,5 +152,5 @@ def coverage_guided(ctx):
 
 def replay_coverage_guided(case):
     data = case['data']
-    lines = guard('C14.decode', ilog().parse_ilog_data, memoryview(data), D.shipped('mex_pte.h'))
+    lines = guard('C14.decode', ilog().parse_ilog_data, D.view(data), D.shipped('mex_pte.h'))
     compare(lines, shipped_table('mex_pte.h'), data)
